@@ -161,7 +161,6 @@ func (in *Interp) engineMethod(recv iface, m *types.Func) value {
 	return nil
 }
 
-func reg(name string, f intrinsic) { intrinsics[name] = f }
 
 func init() {
 	// ------------------------------------------------------------ harness API
